@@ -64,12 +64,29 @@ def integers(declared, span, rng):
 
 def check_enum(E, declared, span, rng, report, count, where, others=()):
     """declared: {ordinal: python member name}.  report(mechanism, message, case)."""
+    class _P:
+        """repr() that cannot fail (a member whose state was damaged may not even print)."""
+        def __init__(self, o):
+            self.o = o
+
+        def __repr__(self):
+            try:
+                return repr(self.o)
+            except Exception as ex:
+                return "<unprintable %s: %s>" % (type(self.o).__name__, type(ex).__name__)
+
     def snapshot():
-        return ([(m.name, int(m)) for m in list(E)], list(E.__members__.keys()), len(E))
+        def val(m):
+            try:
+                v = m.value
+                return (type(v).__name__, bool(v == int(m)))
+            except Exception as ex:
+                return ("raises", type(ex).__name__)
+        return ([(m.name, int(m)) + val(m) for m in list(E)], list(E.__members__.keys()), len(E))
     before = snapshot()
     want_members = sorted((name, o) for o, name in declared.items())
-    if sorted(before[0]) != want_members:
-        report("declared-members-wrong", "%s: list(E) = %r, declared %r" % (where, before[0], want_members), {"enum": where})
+    if sorted(b[:2] for b in before[0]) != want_members:
+        report("declared-members-wrong", "%s: list(E) = %r, declared %r" % (where, [b[:2] for b in before[0]], want_members), {"enum": where})
     xs = integers(declared, span, rng)
     # a second pass re-constructs a sample in another order (same object every time for members)
     xs = xs + rng.sample(xs, min(len(xs), 200))
@@ -98,19 +115,19 @@ def check_enum(E, declared, span, rng, report, count, where, others=()):
             else:
                 x = E(n) if k % 7 < 5 else E(value=n) if k % 7 == 5 else E(n, names=None, module=None, qualname=None, type=None)
         except Exception as e:
-            report("construction-raises", "%s(%d) raised %r" % (where, n, e), {"enum": where, "n": n})
+            report("construction-raises", "%s(%d) raised %r" % (where, n, _P(e)), {"enum": where, "n": n})
             continue
         if n in declared:
             m = getattr(E, declared[n], None)
             if x is not m:
-                report("declared-ordinal-not-member", "%s(%d) is %r, not the declared member %s" % (where, n, x, declared[n]), {"enum": where, "n": n})
+                report("declared-ordinal-not-member", "%s(%d) is %r, not the declared member %s" % (where, n, _P(x), declared[n]), {"enum": where, "n": n})
             continue
         try:
             ok = (isinstance(x, E) and x == n and hash(x) == hash(n) and int(x) == n and x.value == n and x.name == "Unrecognized(%d)" % n and n == x)
             again = E(x)
             ok2 = int(again) == n and isinstance(again, E)
         except Exception as e:
-            report("unrecognized-instance-broken", "%s(%d): %r" % (where, n, e), {"enum": where, "n": n})
+            report("unrecognized-instance-broken", "%s(%d): %r" % (where, n, _P(e)), {"enum": where, "n": n})
             continue
         if not ok:
             report("unrecognized-value-not-kept", "%s(%d) -> %r: isinstance=%r ==%r hash=%r int=%r value=%r name=%r" % (
@@ -156,18 +173,18 @@ def check_enum(E, declared, span, rng, report, count, where, others=()):
         try:
             x = E(v)
         except Exception as e:
-            report("construction-raises", "%s(%r) raised %r" % (where, v, e), {"enum": where, "n": n, "input_type": type(v).__name__})
+            report("construction-raises", "%s(%r) raised %r" % (where, _P(v), _P(e)), {"enum": where, "n": n, "input_type": type(v).__name__})
             continue
         if n in declared:
             if x is not getattr(E, declared[n], None):
-                report("declared-ordinal-not-member", "%s(%r) is %r, not the declared member %s" % (where, v, x, declared[n]), {"enum": where, "n": n})
+                report("declared-ordinal-not-member", "%s(%r) is %r, not the declared member %s" % (where, _P(v), _P(x), declared[n]), {"enum": where, "n": n})
             continue
         try:
             ok = isinstance(x, E) and x == n and hash(x) == hash(n) and int(x) == n and x.value == n and x.name == "Unrecognized(%d)" % n
         except Exception as e:
             ok = False
         if not ok:
-            report("unrecognized-value-not-kept", "%s(%r) [a %s equal to %d] -> %r named %r" % (where, v, type(v).__name__, n, x, getattr(x, "name", None)), {"enum": where, "n": n, "input_type": type(v).__name__})
+            report("unrecognized-value-not-kept", "%s(%r) [a %s equal to %d] -> %r named %r" % (where, _P(v), type(v).__name__, n, _P(x), getattr(x, "name", None)), {"enum": where, "n": n, "input_type": type(v).__name__})
     after = snapshot()
     count("membership-snapshots-compared")
     if after != before:
